@@ -592,7 +592,9 @@ func firstOf(s *GSchema, kind string) *GType {
 func firstImplementer(s *GSchema) (*GType, *GType) {
 	for _, t := range s.Types {
 		if t.Kind == "type" && !t.Ext && len(t.Ifaces) > 0 {
-			return t, s.find(t.Ifaces[len(t.Ifaces)-1])
+			if it := s.find(t.Ifaces[len(t.Ifaces)-1]); it != nil && it.Kind == "interface" && len(it.Fields) > 0 {
+				return t, it
+			}
 		}
 	}
 	return nil, nil
